@@ -317,7 +317,7 @@ func (cf *childFlow) analyse(fn *ssa.Function, paths []NodePath) map[string]path
 			continue
 		}
 		// classify branches: F-absent edges may be ignored; sibling-present edges are the either-or idiom
-		absent := map[*ssa.BasicBlock]int{}          // block -> successor index that means "F absent"
+		absent := map[*ssa.BasicBlock]int{}                // block -> successor index that means "F absent"
 		sibPresent := map[string]map[*ssa.BasicBlock]int{} // sibling path -> block -> successor index meaning "sibling present"
 		for _, b := range fn.Blocks {
 			if len(b.Instrs) == 0 || len(b.Succs) != 2 {
@@ -546,7 +546,6 @@ func describeAvoiding(p *core.Prog, entry *ssa.BasicBlock, avoid map[*ssa.BasicB
 	}
 	return "path taking " + strings.Join(conds, ", ")
 }
-
 
 func runC14(c *Ctx) {
 	r, p := c.R, c.P
